@@ -989,7 +989,14 @@ pub fn c19(rng: &mut Rng, thorough: bool, idx: u64) -> Spec {
                     _ => format!("/* {} */ Select Current_Database() As a, Current_Schemas(FALSE) As b;", t),
                 };
                 plan.insert(t, serde_json::json!({"intercept": true}));
-                p.simple(q);
+                if rng.chance(0.3) {
+                    // ... through the extended protocol
+                    let mut m = ext(q, "");
+                    m.push(FrontMsg::S);
+                    p.send(m);
+                } else {
+                    p.simple(q);
+                }
             }
             if rng.chance(0.2) {
                 p.think(rng.range(0, 15));
